@@ -366,6 +366,28 @@ func errorsAs(fr *frame, err, target iface) value {
 // bytes; a symbolic integer is rendered as the placeholder "<sym>" (the text
 // is then approximate: recorded as stub "fmt:approx").
 func formatValue(fr *frame, verb rune, flags string, x iface) value {
+	return formatValueAt(fr, verb, flags, x, 0)
+}
+
+// fmtAddr: the printed address of a pointer is arbitrary (it differs between processes), but the same
+// object prints the same address within one execution: fresh symbolic bytes per object and path.
+func fmtAddr(fr *frame, p *value) value {
+	path := fr.i.path
+	if path == nil {
+		return "0xPTR"
+	}
+	if path.addrs == nil {
+		path.addrs = map[*value]value{}
+	}
+	if a, ok := path.addrs[p]; ok {
+		return a
+	}
+	a := strConcat("0x", nondetStr(path, "addr", 4, "str"))
+	path.addrs[p] = a
+	return a
+}
+
+func formatValueAt(fr *frame, verb rune, flags string, x iface, depth int) value {
 	if x.t == nil {
 		return "<nil>"
 	}
@@ -425,19 +447,25 @@ func formatValue(fr *frame, verb rune, flags string, x iface) value {
 				if k > 0 {
 					parts = append(parts, " ")
 				}
-				parts = append(parts, formatValue(fr, verb, flags, iface{sl.Elem(), e}))
+				parts = append(parts, formatValueAt(fr, verb, flags, iface{sl.Elem(), e}, depth+1))
 			}
 			parts = append(parts, "]")
 			return concatAll(parts)
 		}
 	case iface:
-		return formatValue(fr, verb, flags, v)
+		return formatValueAt(fr, verb, flags, v, depth)
 	case *value:
 		if v == nil {
 			return "<nil>"
 		}
-		fr.i.stubsHit["fmt:approx"]++
-		return "0xPTR"
+		if pt, ok := x.t.Underlying().(*types.Pointer); ok && depth == 0 && verb == 'v' {
+			// like fmt: a top-level pointer to a struct prints &{...}; nested pointers print their address
+			if _, isStruct := pt.Elem().Underlying().(*types.Struct); isStruct {
+				return strConcat("&", formatValueAt(fr, verb, flags, iface{pt.Elem(), *v}, depth+1))
+			}
+		}
+		stubHit(fr, "fmt:pointer-address(arbitrary)")
+		return fmtAddr(fr, v)
 	case structure:
 		if st, ok := x.t.Underlying().(*types.Struct); ok {
 			parts := []value{"{"}
@@ -448,7 +476,7 @@ func formatValue(fr *frame, verb rune, flags string, x iface) value {
 				if strings.Contains(flags, "+") {
 					parts = append(parts, st.Field(k).Name()+":")
 				}
-				parts = append(parts, formatValue(fr, 'v', flags, iface{st.Field(k).Type(), e}))
+				parts = append(parts, formatValueAt(fr, 'v', flags, iface{st.Field(k).Type(), e}, depth+1))
 			}
 			parts = append(parts, "}")
 			return concatAll(parts)
